@@ -15,6 +15,8 @@ import copy
 import json
 import random
 
+from typing import Optional
+
 import common
 import designs
 import build
@@ -32,13 +34,16 @@ TRUSTED = ["harness/build.py", "observe.pkg_json", "the expected plain design is
 
 E_CLASH = {"k": "leaf", "kind": ".EI", "ports": [{"n": "i", "w": 1}, {"n": "units", "w": 1}, {"n": "inner", "w": 1}, {"n": "o", "w": 1}], "params": [],
            "py": {"k": "ext", "name": "EI"}}
+# ports that differ only in letter case are different ports
+E_CASE = {"k": "leaf", "kind": ".EQ", "ports": [{"n": "q", "w": 1}, {"n": "Q", "w": 1}, {"n": "x", "w": 1}, {"n": "X", "w": 1}], "params": [],
+          "py": {"k": "ext", "name": "EQ"}}
 BDEF = {"name": "B19", "tree": {"sigs": [gen_design.leaf_sig("x", 1), gen_design.leaf_sig("y", 1, "input"),
                                          dict(gen_design.leaf_sig("z", 1), src="HOST", dest="DEVICE")], "subs": []}}
 
 
 def gen_unit_module(rng, mos_like=False):
     """A small module with 2-4 scalar ports, optionally bus and bundle ports, and resistors / external leaves inside."""
-    names = ["d", "s", "g", "b"] if mos_like else rng.sample(["a", "b", "c", "e", "f", "i", "units", "inner"], rng.randint(2, 4))
+    names = ["d", "s", "g", "b"] if mos_like else rng.sample(["a", "b", "c", "e", "f", "i", "units", "inner", "A", "E"], rng.randint(2, 4))
     if mos_like:
         names = names[: rng.randint(2, 4)]
     sigs = [{"n": n, "w": 1, "port": True, "dir": rng.choice(["input", "output", "inout", "none"])} for n in names]
@@ -73,7 +78,7 @@ def unit_ports(unit):
 
 def make_cases(rng, n_cases, nmax):
     cases = []
-    leaves = gen_design.LEAVES + [E_CLASH]
+    leaves = gen_design.LEAVES + [E_CLASH, E_CASE]
     for k in range(n_cases):
         r = rng.random()
         gen = "Series" if r < 0.6 else ("MosStack" if r < 0.8 else "Wrapper")
@@ -111,6 +116,10 @@ def make_cases(rng, n_cases, nmax):
 @h.paramclass
 class ExtP:
     m = h.Param(dtype=int, desc="m", default=1)
+    x = h.Param(dtype=Optional[float], desc="x", default=None)
+    tag = h.Param(dtype=Optional[str], desc="tag", default=None)
+    en = h.Param(dtype=Optional[bool], desc="en", default=None)
+    k = h.Param(dtype=Optional[int], desc="k", default=None)
 
 
 def leaf_unit(of):
